@@ -63,6 +63,16 @@ func (expimpStream) Exhaustive(tier string) [][]string {
 			sprintf("oracle c10 %d 2", seed),
 		})
 	}
+	// every hard text in every place that carries text: the same classes on every run
+	for i := range eiHardStrings {
+		res = append(res, []string{sprintf("oracle c11 %d 7", eiHardBase+i)})
+	}
+	// every odd name on every kind of entity (node, message, signal): the same classes on every run
+	for i := 0; i < 3*len(eiOddNames); i += 3 {
+		res = append(res, []string{
+			sprintf("oracle c11 %d 8", eiOddBase+i), sprintf("oracle c11 %d 8", eiOddBase+i+1), sprintf("oracle c11 %d 8", eiOddBase+i+2),
+		})
+	}
 	// the two fixtures and the sweep over every legal (start, size, byte order) of one signal
 	res = append(res, []string{"oracle c10 0 1", "oracle c10 1 1", "oracle c09 0 2", "oracle c09 1 2"})
 	for chunk := 0; chunk < eiSweepChunks; chunk++ {
@@ -528,6 +538,9 @@ var eiHardStrings = [][2]string{
 	{"non-ascii", "ünï ° µ"}, {"padded", "  padded  "}, {"tab", "tab\there"}, {"percent", "100%d"}, {"cr", "a\rb"}, {"trailing-backslash", `end\`},
 }
 
+const eiOddBase = 9000000
+const eiHardBase = 9100000
+
 var eiOddNames = [][2]string{
 	{"leading-digit", "1st"}, {"dash", "a-b"}, {"dot", "a.b"}, {"non-ascii", "größe"}, {"mux-indicator-M", "M"}, {"mux-indicator-m1", "m1"},
 	{"keyword", "BO_"}, {"slash", "a/b"}, {"placeholder", "Vector__XXX"}, {"quote", `a"b`}, {"number", "42"}, {"tab", "a\tb"}, {"type-keyword", "INT"},
@@ -565,41 +578,46 @@ func (c *eiCtx) eiDecorate(g *genNet) (string, string) {
 	var did []string
 	if c.variant == 7 {
 		cls := eiHardStrings[r.Intn(len(eiHardStrings))]
+		all := c.seed >= eiHardBase && c.seed < eiHardBase+int64(len(eiHardStrings))
+		if all {
+			// the systematic part: every hard text in EVERY place that carries text, on every run
+			cls = eiHardStrings[c.seed-eiHardBase]
+		}
 		txt := cls[1]
 		for _, b := range g.buses {
-			if r.Intn(2) == 0 {
+			if (all || r.Intn(2) == 0) {
 				b.SetDesc(txt)
 				did = append(did, "bus desc")
 			}
 		}
 		for _, n := range g.nodes {
-			if r.Intn(3) == 0 {
+			if (all || r.Intn(3) == 0) {
 				n.SetDesc(txt)
 				did = append(did, "node desc")
 			}
 		}
 		for _, m := range g.msgs {
-			if r.Intn(3) == 0 {
+			if (all || r.Intn(3) == 0) {
 				m.SetDesc(txt)
 				did = append(did, "message desc")
 			}
-			if r.Intn(3) == 0 && g.attrs[0].Type() == acmelib.AttributeTypeString {
+			if (all || r.Intn(3) == 0) && g.attrs[0].Type() == acmelib.AttributeTypeString {
 				if m.AssignAttribute(g.attrs[0], txt) == nil {
 					did = append(did, "message string attribute")
 				}
 			}
 			for _, s := range eiAllSignals(m) {
-				if r.Intn(4) == 0 {
+				if (all || r.Intn(4) == 0) {
 					s.SetDesc(txt)
 					did = append(did, "signal desc")
 				}
 			}
 		}
-		if r.Intn(2) == 0 {
+		if (all || r.Intn(2) == 0) {
 			g.units[r.Intn(len(g.units))].SetSymbol(txt)
 			did = append(did, "unit symbol")
 		}
-		if r.Intn(2) == 0 {
+		if (all || r.Intn(2) == 0) {
 			for _, e := range g.enums {
 				if vs := e.Values(); len(vs) > 0 && vs[0].UpdateName(txt) == nil {
 					did = append(did, "enum value name")
@@ -611,6 +629,11 @@ func (c *eiCtx) eiDecorate(g *genNet) (string, string) {
 	}
 	cls := eiOddNames[r.Intn(len(eiOddNames))]
 	kind := pick(r, "node", "message", "signal")
+	if c.seed >= eiOddBase && c.seed < eiOddBase+int64(3*len(eiOddNames)) {
+		// the systematic part: every odd name on every kind of entity, on every run
+		cls = eiOddNames[(c.seed-eiOddBase)/3]
+		kind = []string{"node", "message", "signal"}[(c.seed-eiOddBase)%3]
+	}
 	switch kind {
 	case "node":
 		n := g.nodes[r.Intn(len(g.nodes))]
